@@ -33,6 +33,7 @@ class Runner:
         self.parked = {}         # handle -> last reply while at a gate
         self.results = {}
         self._marker = {}
+        self.failed_open = set()
 
     def pids(self):
         m = {a.pid: name for name, a in self.agents.items()}
@@ -66,10 +67,16 @@ class Runner:
     def open(self, h):
         r = self.agent(h).call(cmd="open", h=h, db=self.db)
         if not r.get("ok"):
-            raise Infra("open failed: %r" % r)
+            # Locks.tla has no failing Open: the recorded schedule will not be explained (a violation, not an infra error)
+            self.emit(h, "open_err", error=str(r.get("error"))[:80])
+            self.failed_open.add(h)
+            return False
         self.emit(h, "open")
+        return True
 
     def close(self, h):
+        if h in self.failed_open:
+            return
         self.agent(h).call(cmd="close", h=h)
         self.emit(h, "close")
 
@@ -104,6 +111,8 @@ class Runner:
         return "done"
 
     def start(self, h, op, gate_on=None):
+        if h in self.failed_open:
+            return "done"
         self._marker[h] = op.get("table") == "meta"
         r = self.agent(h).call(cmd="start", h=h, gate=True, gate_on=gate_on or [], op=dict(op, id=1))
         return self._observe(h, r)
@@ -201,6 +210,9 @@ def validate(v, schedules, layout, tag, module="TraceLocks", cfg=None, fname="lo
             sub = validate(v, first, layout, tag + "-pre%d" % rounds, module=module, cfg=cfg, fname=fname, reset=reset)
             results.update(sub)
         todo = todo[k + 1:]
-        if rounds > 30:
-            raise Infra("too many rejected schedules")
+        if rounds > 12:
+            # (nearly) every schedule is rejected: the remaining ones are reported as rejected without locating the line
+            for n, evs in todo:
+                results.setdefault(n, {"accepted": False, "viol": [], "stuck_at": {"note": "not analysed individually"}})
+            break
     return results
